@@ -520,6 +520,31 @@ Section Process.
     - cbn. now rewrite app_nil_r.
   Qed.
 
+  Lemma process_all_visible cfg st ws :
+    visible_all (fst (process_all select params_ok dst_port geoip_ok covert_check live cfg st ws)) =
+    visible_all st ++ announced_regs (snd (process_all select params_ok dst_port geoip_ok covert_check live cfg st ws)).
+  Proof.
+    revert st; induction ws as [|w ws IH]; intro st.
+    - cbn. now rewrite app_nil_r.
+    - cbn [process_all]. pose proof (process_visible cfg st w) as H1.
+      destruct (process' cfg st w) as [st1 e1]. cbn [fst snd] in H1.
+      specialize (IH st1).
+      destruct (process_all select params_ok dst_port geoip_ok covert_check live cfg st1 ws) as [st2 e2].
+      cbn [fst snd] in *. now rewrite IH, H1, announced_regs_app, app_assoc.
+  Qed.
+
+  (* from an empty table, after any history of messages: a lookup for any phantom returns only announced registrations *)
+  Lemma lookup_only_announced cfg ws ph r :
+    In r (visible (fst (process_all select params_ok dst_port geoip_ok covert_check live cfg [] ws)) ph) ->
+    In r (announced_regs (snd (process_all select params_ok dst_port geoip_ok covert_check live cfg [] ws))).
+  Proof.
+    intro H. pose proof (process_all_visible cfg [] ws) as Hv. cbn [visible_all filter map app] in Hv.
+    rewrite <- Hv. unfold visible in H. unfold visible_all.
+    apply in_map_iff in H as (e & <- & He). apply in_map_iff. exists e. split; [reflexivity|].
+    apply filter_In in He as [Hin Hb]. apply filter_In. split; [exact Hin|].
+    now apply andb_true_iff in Hb as [Hb _].
+  Qed.
+
   (* a message that cannot be built for a requested family is dropped as a whole: no effect, no change *)
   Lemma process_dropped cfg st w p v6 :
     w_payload w = Some p -> want cfg w p v6 = true -> buildable' cfg w p v6 = false ->
